@@ -157,6 +157,7 @@ class Interp:
         self.trace_calls = []    # resolved call sites (for evidence)
         self.max_depth = 24
         self.roundings = None
+        self.forks = 0           # number of switches that split into several successors (symbolic branches)
         self.entered = set()     # paths of every function/closure body that was analysed
         self.loop_stack = []
 
@@ -255,6 +256,8 @@ class Interp:
             return self.seq_len(inner)
         if isinstance(seq, VecV):
             return self.seq_len(seq.seq)
+        if isinstance(seq, SeqFilter):
+            return ('slen', self.abstract(None, seq))
         if isinstance(seq, SeqConcat):
             n = iconst(0)
             for p_ in seq.parts:
@@ -270,6 +273,11 @@ class Interp:
         if isinstance(seq, (SeqLit, Arr)):
             if idx[0] == 'ic':
                 return seq.elems[idx[1]]
+            if isinstance(seq, SeqLit) and 1 <= len(seq.elems) <= 4:
+                acc = seq.elems[-1]
+                for j in range(len(seq.elems) - 2, -1, -1):
+                    acc = self.select(mk_icmp('eq', idx, iconst(j)), seq.elems[j], acc)
+                return acc
             raise Unsupported('symbolic index into a literal sequence')
         if isinstance(seq, SeqUpd):
             if idx == seq.idx:
@@ -281,6 +289,21 @@ class Interp:
             return self.subst_value(seq.elem, {seq.ivar: idx})
         if isinstance(seq, SelV):
             return self.select(seq.cond, self.seq_get(seq.a, idx, state), self.seq_get(seq.b, idx, state))
+        if isinstance(seq, SeqFilter):
+            ety = seq.seq.elem_ty if isinstance(seq.seq, SeqSym) else None
+            return self.elem_value(self.abstract(state, seq), idx, ety, state)
+        if isinstance(seq, SeqConcat):
+            a = seq.parts[0]
+            rest = seq.parts[1] if len(seq.parts) == 2 else SeqConcat(seq.parts[1:])
+            na = self.seq_len(a)
+            if idx[0] == 'ic' and na[0] == 'ic':
+                return self.seq_get(a, idx, state) if idx[1] < na[1] else self.seq_get(rest, iconst(idx[1] - na[1]), state)
+            c = mk_icmp('lt', idx, na)
+            if c == TRUE:
+                return self.seq_get(a, idx, state)
+            if c == FALSE:
+                return self.seq_get(rest, self.isub(idx, na), state)
+            return self.select(c, self.seq_get(a, idx, state), self.seq_get(rest, self.isub(idx, na), state))
         if isinstance(seq, SeqPush):
             n = self.seq_len(seq.seq)
             if idx == n:
@@ -552,6 +575,8 @@ class Interp:
             return ('collect', self.abstract(state, v.stream, depth + 1))
         if isinstance(v, SeqConcat):
             return ('concat',) + tuple(self.abstract(state, x, depth + 1) for x in v.parts)
+        if isinstance(v, SeqFilter):
+            return ('seqfilter', v.kind, self.abstract(state, v.seq, depth + 1), self.abstract(state, v.summary, depth + 1))
         if isinstance(v, SeqSorted):
             return ('sorted', self.abstract(state, v.seq, depth + 1), self.abstract(state, v.cmp, depth + 1))
         if isinstance(v, Stream):
@@ -1118,6 +1143,12 @@ class Interp:
         raise Unsupported('terminator %s' % t.get('text', k), (frame.f['path'], line))
 
     def exec_switch(self, frame, state, t, line):
+        out = self._exec_switch(frame, state, t, line)
+        if len(out) > 1:
+            self.forks += 1
+        return out
+
+    def _exec_switch(self, frame, state, t, line):
         d = self.eval_operand(frame, state, t['discr'])
         targets = [(int(v), bb) for v, bb in t['targets']]
         otherwise = t['otherwise']
@@ -1428,7 +1459,51 @@ class Interp:
                 return ('HAVOC-UNSUPPORTED', after)
         return Stream(before.kind, tuple(parts))
 
+    def try_concrete_loop(self, frame, header, st0, limit=64):
+        """a loop whose every iteration decides its own exit test (constant trip count, e.g. `for i in 0..8`
+        or a zip over fixed-size arrays) is interpreted iteration by iteration; returns None when some
+        iteration leaves the test undecided (then the loop is summarised instead)"""
+        blocks = frame.loop_blocks[header]
+        marks = (len(self.sites), len(self.loops), len(self.events))
+        state = st0
+        for _k in range(limit):
+            forks0 = self.forks
+            try:
+                outs = self.run_blocks(frame, header, blocks, state.copy(), as_loop_body=True)
+            except Unsupported:
+                outs = None
+            if outs is None or self.forks != forks0:
+                # the iteration branched on symbolic data: not a constant-trip straight-line loop
+                break
+            backs = outs.get(header, [])
+            exits = {t: ss for t, ss in outs.items() if t != header}
+            if backs and exits:
+                break
+            if exits:
+                if sum(len(ss) for ss in exits.values()) != 1 or any(s.guard for ss in exits.values() for s in ss):
+                    break
+                res = {}
+                for t, ss in exits.items():
+                    m = ss[0]
+                    res[t] = [State(m.store, st0.guard, st0.facts | m.facts)]
+                return res
+            if not backs:
+                return {}
+            # only straight-line iterations are interpreted concretely: a body that branches on symbolic
+            # data (several paths, or a non-empty local guard) is summarised instead
+            if len(backs) != 1 or backs[0].guard:
+                break
+            m = backs[0]
+            state = State(m.store, st0.guard, st0.facts | m.facts)
+        del self.sites[marks[0]:]
+        del self.loops[marks[1]:]
+        del self.events[marks[2]:]
+        return None
+
     def run_loop(self, frame, header, st0):
+        conc = self.try_concrete_loop(frame, header, st0)
+        if conc is not None:
+            return conc
         blocks = frame.loop_blocks[header]
         summ = LoopSummary()
         summ.fn = frame.f['path']
